@@ -2,6 +2,7 @@ import PoaVerif.Model.Spec
 import PoaVerif.Witness.D1
 import PoaVerif.Witness.D2
 import PoaVerif.Props.C14
+import PoaVerif.Lemmas.Corollaries
 /-
   C03 — admin operations have exactly the requested effect, on the target only.
   FALSE of the code as stated (D1, D2, D6, D7); witnesses, and the handler-level part that holds.
@@ -40,5 +41,73 @@ theorem c03_target_amounts (s s' : App) (op p : Nat) (u : Bool)
     ∃ w, s'.getVal op = some w ∧ w.tokens = p ∧ alookup op s'.last = some ((p / PR : Nat) : Int) := by
   obtain ⟨_, _, w, h1, h2, _, _, h5⟩ := C14.c14_exact s s' op p u h
   exact ⟨w, h1, h2, h5⟩
+
+/-! ### inside the decidable region `Pre` (§3.2 of DESIGN.md): the refinement theorems, validator by validator -/
+
+/-- **C03, requested effect (partial: the block's state enters the EndBlocker inside `Pre`)**: after a successful
+    SetPower(v, P) on an un-jailed validator — admitted from the pending list first if necessary — if no later message
+    of the block touches the state and it lies in `Pre`, CometBFT's next set gives v exactly `P / 10^6` -/
+theorem c03_effect_partial (s s1 s' : App) (c c' : CSet) (ups : List (Nat × Int)) (op p : Nat) (u : Bool)
+    (hmsg : setPowerMsg genLimitFacts s .admin (some op) p u = .ok s1)
+    (hpre : Pre s1 c = true) (hend : s1.stakingEndBlock = .ok (ups, s')) (hc : Comet.applyChangeSet c ups = .ok c')
+    (w : Val) (hw : s1.getVal op = some w) (hj : w.jailed = false) :
+    alookup w.key c' = some ((p / PR : Nat) : Int) := by
+  obtain ⟨hlo, hhi, w2, hw2, htok, _⟩ := Props.C14.c14_exact s s1 op p u hmsg
+  rw [hw] at hw2; injection hw2 with hw2; subst hw2
+  -- the index entry written by the handler
+  have hf := Props.C14.facts_bounds
+  have hlo' : ¬ p < 1000000 := by omega
+  have hhi' : ¬ p > 9223372036854775807 := by omega
+  have hmsg' := hmsg
+  simp only [setPowerMsg, isAdmin, validateSetPower, hf.1, hf.2, hlo', hhi'] at hmsg'
+  simp only [beq_self_eq_true, Bool.not_true, Bool.false_eq_true, ↓reduceIte, Option.isNone_some,
+    decide_false, Bool.and_false, setPowerCore] at hmsg'
+  rw [toInt64_small p (by omega)] at hmsg'
+  generalize s.admitIfPending (some op) = sa at hmsg'
+  simp only [setPOAPower] at hmsg'
+  cases hv : sa.getVal op with
+  | none => simp [hv] at hmsg'
+  | some v =>
+    simp only [hv] at hmsg'
+    cases hr : sa.setPOAPowerVal v (p : Int) with
+    | error e => simp [hr] at hmsg'
+    | ok s2 =>
+      simp only [hr] at hmsg'
+      have hop := getVal_op sa op v hv
+      have e := limitCheck_ok genLimitFacts s2 s1 u hmsg'
+      obtain ⟨hidx, w3, hw3, hj3, _⟩ := setPOAPowerVal_entry sa s2 v (p : Int) hr (by omega)
+      have hget : s1.getVal op = s2.getVal op := by rw [e]; exact getVal_congr _ _ (by simp [updateBondedPool]; split <;> rfl) _
+      rw [hop] at hw3 hidx
+      rw [hget, hw3] at hw; injection hw with hw; subst hw
+      have hvj : v.jailed = false := by rw [← hj3]; exact hj
+      have hmem : (powerOf (toUInt64 (p : Int)), op) ∈ s1.index := by
+        have : s1.index = s2.index := by rw [e]; simp [updateBondedPool]; split <;> rfl
+        rw [this]; exact hidx hvj
+      have hocc : occ op s1.index > 0 := occ_pos_of_mem _ _ hmem
+      have hcand : hasCandEntry s1 w3 = true := by
+        have hwop := getVal_op _ _ _ (by rw [hget]; exact hw3 : s1.getVal op = some w3)
+        have hpw : powerOf w3.tokens > 0 := by rw [htok]; exact Nat.div_pos (by unfold PR; omega) (by decide)
+        simp [hasCandEntry, cand, hj, hpw, hwop, hocc]
+      have := effect_pre s1 s' c c' ups hpre hend hc op w3 (by rw [hget]; exact hw3) hcand
+      rw [this, htok]; rfl
+
+
+/-- **C03, requested effect of RemoveValidator / of any validator that is not a candidate**: a jailed validator — and
+    every removed one is first slashed to zero tokens and leaves the power table — is not in the next set (see also
+    `c13_jailed_out_partial`); here: a validator that has one index entry and whose recorded power is current is **not
+    mentioned** in the block's updates (bystanders), for every `Pre` state -/
+theorem c03_bystander_partial (s s' : App) (c : CSet) (ups : List (Nat × Int)) (hpre : Pre s c = true)
+    (h : s.stakingEndBlock = .ok (ups, s'))
+    (op : Nat) (v : Val) (hv : s.getVal op = some v) (hcand : cand v = true) (h1 : occ op s.index = 1)
+    (hl : alookup op s.last = some ((powerOf v.tokens : Nat) : Int)) :
+    alookup v.key ups = none :=
+  bystander_pre s s' c ups hpre h op v hv hcand h1 hl
+
+/-- every candidate — un-jailed, at least one unit, owning an index entry — has exactly `tokens / 10^6` in the next set -/
+theorem c03_candidate_power_partial (s s' : App) (c c' : CSet) (ups : List (Nat × Int)) (hpre : Pre s c = true)
+    (h : s.stakingEndBlock = .ok (ups, s')) (hc : Comet.applyChangeSet c ups = .ok c')
+    (op : Nat) (v : Val) (hv : s.getVal op = some v) (hcand : hasCandEntry s v = true) :
+    alookup v.key c' = some ((powerOf v.tokens : Nat) : Int) :=
+  effect_pre s s' c c' ups hpre h hc op v hv hcand
 
 end PoaVerif.Props.C03
